@@ -89,7 +89,7 @@ type quicRun struct {
 }
 
 // driveQUIC pumps a UQUICConn client against a QUICServer with a PRNG-chosen order.
-func driveQUIC(rg *rand.Rand, ccfg *tls.Config, spec *tls.ClientHelloSpec, scfg *tls.Config, cancelAt int, fragment bool) *quicRun {
+func driveQUIC(rg *rand.Rand, ccfg *tls.Config, spec *tls.ClientHelloSpec, scfg *tls.Config, cancelAt int, fragment bool, beforeStart func()) *quicRun {
 	run := &quicRun{cli: newSide("client"), srv: newSide("server"), cancelledAt: -1}
 	ctx, cancel := context.WithCancel(context.Background())
 	defer cancel()
@@ -109,6 +109,9 @@ func driveQUIC(rg *rand.Rand, ccfg *tls.Config, spec *tls.ClientHelloSpec, scfg 
 		return run
 	}
 	q.SetTransportParameters([]byte{})
+	if beforeStart != nil {
+		beforeStart()
+	}
 	s := tls.QUICServer(&tls.QUICConfig{TLSConfig: scfg})
 	s.SetTransportParameters([]byte{0x01, 0x01, 0x05})
 	run.cli.next, run.cli.handle = q.NextEvent, q.HandleData
@@ -129,7 +132,23 @@ func driveQUIC(rg *rand.Rand, ccfg *tls.Config, spec *tls.ClientHelloSpec, scfg 
 	}
 	if run.startErr != nil {
 		run.err = run.startErr
-		closeAll()
+		// a caller that goes on feeding CRYPTO data (or closes first and feeds then): the
+		// calls must still return
+		feed := func() error { return q.HandleData(tls.QUICEncryptionLevelInitial, []byte{2, 0, 0, 0}) }
+		if rg.Intn(2) == 0 {
+			if _, ok := bounded(feed); !ok {
+				run.hang = "UQUICConn.HandleData after a failed Start"
+				return run
+			}
+			closeAll()
+		} else {
+			closeAll()
+			if run.hang == "" {
+				if _, ok := bounded(feed); !ok {
+					run.hang = "UQUICConn.HandleData after a failed Start and Close"
+				}
+			}
+		}
 		return run
 	}
 	if e, ok := bounded(func() error { return s.Start(context.Background()) }); !ok || e != nil {
@@ -233,7 +252,7 @@ func driveQUIC(rg *rand.Rand, ccfg *tls.Config, spec *tls.ClientHelloSpec, scfg 
 
 // C23 — QUIC clients complete the handshake through the event API and never hang.
 func TestC23(t *testing.T) {
-	r := mon.New("C23", "generated TLS 1.3-only QUIC ClientHello specs (quic_transport_parameters incl. GREASE parameters) x QUIC server configs (incl. HelloRetryRequest) x PRNG-chosen event-pump orders and CRYPTO fragmentation x failure injections (unbuildable config: no ServerName, empty PSK without OmitEmptyPsk, two padding extensions; server alert; context cancelled at a random step, already cancelled / past its deadline before Start): trace specification over the NextEvent streams of both sides; every Start/HandleData/Close runs in its own goroutine and must return within 10 s. Race detector on. distinct = event-order signatures")
+	r := mon.New("C23", "generated TLS 1.3-only QUIC ClientHello specs (quic_transport_parameters incl. GREASE parameters) x QUIC server configs (incl. HelloRetryRequest) x PRNG-chosen event-pump orders and CRYPTO fragmentation x failure injections (unbuildable config: no ServerName, empty PSK without OmitEmptyPsk, two padding extensions; a Config whose MinVersion Start refuses; HandleData and Close in both orders after a failed Start; server alert; context cancelled at a random step, already cancelled / past its deadline before Start): trace specification over the NextEvent streams of both sides; every Start/HandleData/Close runs in its own goroutine and must return within 10 s. Race detector on. distinct = event-order signatures")
 	defer r.Finish(t)
 	n := mon.Pick(400, 30000)
 	orders := map[string]bool{}
@@ -256,7 +275,7 @@ func TestC23(t *testing.T) {
 				listed = v.Curves
 			}
 		}
-		scenario := []string{"ok", "ok", "ok", "hrr", "no-servername", "empty-psk", "two-paddings", "server-alert", "cancel", "cancel"}[i%10]
+		scenario := []string{"ok", "ok", "ok", "hrr", "no-servername", "empty-psk", "two-paddings", "server-alert", "cancel", "cancel", "minversion-below-1.3"}[i%11]
 		ccfg := &tls.Config{ServerName: "example.test", RootCAs: peer.Fix().CA.Pool, Time: peer.FixedTime, MinVersion: tls.VersionTLS13, NextProtos: protos}
 		scfg := peer.ServerConfig()
 		scfg.MinVersion = tls.VersionTLS13
@@ -281,6 +300,8 @@ func TestC23(t *testing.T) {
 			} else {
 				scfg.CurvePreferences = []tls.CurveID{g}
 			}
+		case "minversion-below-1.3":
+			ccfg.MinVersion = []uint16{0, tls.VersionTLS12, tls.VersionTLS10}[rg.Intn(3)] // Start refuses such a Config
 		case "no-servername":
 			ccfg.ServerName = ""
 		case "empty-psk":
@@ -299,7 +320,14 @@ func TestC23(t *testing.T) {
 				cancelAt = -2 // deadline already exceeded before Start
 			}
 		}
-		run := driveQUIC(rg, ccfg, spec, scfg, cancelAt, rg.Intn(2) == 0)
+		var beforeStart func()
+		if scenario == "minversion-below-1.3" {
+			// (ApplyPreset writes the spec's versions into the Config; the caller lowers the
+			// minimum afterwards)
+			mv := ccfg.MinVersion
+			beforeStart = func() { ccfg.MinVersion = mv }
+		}
+		run := driveQUIC(rg, ccfg, spec, scfg, cancelAt, rg.Intn(2) == 0, beforeStart)
 		sig := map[string]string{"scenario": scenario}
 		rep := map[string]any{"case": i, "scenario": scenario, "start_err": fmt.Sprint(run.startErr), "err": fmt.Sprint(run.err), "client_events": run.cli.events, "server_events": run.srv.events, "cancelled_at": run.cancelledAt}
 		if run.hang != "" {
@@ -367,7 +395,7 @@ func TestC23(t *testing.T) {
 					viol("transport_parameters_events", fmt.Sprintf("%s received %d QUICTransportParameters events", side.name, side.tpEvents))
 				}
 			}
-		case "no-servername", "empty-psk", "two-paddings":
+		case "no-servername", "empty-psk", "two-paddings", "minversion-below-1.3":
 			if run.startErr == nil {
 				viol("start_accepts_unbuildable_hello", "Start returned nil although the ClientHello cannot be built")
 			} else {
